@@ -29,6 +29,7 @@ import shutil
 
 import common
 import stackgen
+import c14x
 from common import enc
 
 DEFAULT_PRODUCT = "implicitProducts"
@@ -572,47 +573,67 @@ def setup_ctx(ctx):
                 "Eups.remove(name, version, recursive in {F,T}, checkRecursive in {F,T}) with force in {F,T}; one evaluation = one "
                 "such command on a freshly restored stack, compared with the model on outcome class, declarations, tags and the "
                 "file tree afterwards; non-trivial = at least 3 products asked for, or a surviving product needs one of them; "
-                "distinct = distinct (asked set, surviving users, flags)")
+                "distinct = distinct (asked set, surviving users, flags).  Whole command (harness/c14x.py): directed and random "
+                "declarations of 4-7 product names over two stacks on EUPS_PATH and the flavors Linux64 (running) and generic "
+                "(fall-back) - the same version declared in both stacks or under both flavors with tables of their own, dependencies "
+                "across stacks, current and stable in both stacks, product directories inside the stack, outside it, none, shared; "
+                "eups remove through eups.cmd.EupsCmd (-R, -N, --force, -i / --noInteractive with the answers on standard input, too "
+                "few arguments) and through Eups.remove, and histories of several commands and declarations on one Eups object; "
+                "key whole-command/<via>/<flags RCFI>/<outcome>")
     ctx.trusted_base = common.COMMON_TRUSTED + [
         "resolved edges are an input of the model: the harness asks the real code what each table line denotes "
         "(Action.processArgs + Eups.findProductFromVRO, as Table.dependencies does) and checks the answer against its own "
         "resolution of the generated data (explicit version iff declared, bare name -> tag current)",
         "the state before the command is an input of the model: declarations (directory, table) and tag assignments as "
         "Database.findProducts / getTagAssignments of a fresh reader list them, and os.walk of the stack without ups_db",
+        "whole command: the two worlds of Model/RemoveExt.v are built by the harness from the real code's answers - ww from the "
+        "table of the first declaration of the running flavor on the path, a line counting as resolved when the running flavor "
+        "declares the version it denotes; wu by appending the lines of every declaration of a (name, version) - and the "
+        "resolution of every line is checked against a reference resolution of the generator's data (running flavor first, "
+        "first stack first, bare name = tag current); standard input is a StringIO holding the answers",
         "modelled, not verified: shutil.rmtree removes a directory and everything below it and raises when it does not exist; "
         "Product equality (name, version, flavor) with one flavor; Eups.uses / Uses.users are C13's model (Model/Graph.v)"]
     ctx.assumptions = [
-        "one stack, one flavor; every declared product has a readable table with plain setupRequired/setupOptional(name [version]) lines",
+        "every declared product has a readable table with plain setupRequired/setupOptional(name [version]) lines; the running "
+        "flavor is Linux64 with the fall-back generic (a command run for the flavor generic sees generic declarations only: not run)",
         "the default product implicitProducts is not declared (every table ends with a silent optional dependency on it, an "
-        "unresolved edge of the world); nothing is set up in the environment; not interactive; no userInfo handed in; not noaction",
-        "theorems about directories assume wf_dirs: the installation directories of the declared products are pairwise "
-        "non-nested (in particular distinct) and exist; the directed shared/nested scenarios are tied by correspondence only"]
+        "unresolved edge of the world); nothing is set up in the environment; no userInfo handed in; not noaction; -t not modelled",
+        "the exact set of deleted paths (removes_exactly*, last clause) is stated under wf_dirs: the installation directories of "
+        "the declared products are pairwise non-nested (in particular distinct); the directory of a declaration that stays is "
+        "covered without it (frame_directories_multi).  The single-stack directed nested scenarios (a removed product installed "
+        "inside another removed product) are tied by correspondence only"]
 
 
 def run(ctx):
     setup_ctx(ctx)
     ctx.check_theorems()
-    # the registered check models the code WITH the two fixes; the other variants of Model/Remove.v (pinned,
-    # skiponly) can be selected for cross-validation against the corresponding tree
+    # the registered check models the code WITH the fixes; the other variants of Model/Remove.v / RemoveExt.v (pinned,
+    # skiponly, nokeep = all but C14-remove-keeps-shared-directory) can be selected for cross-validation against the
+    # corresponding tree
     variant = os.environ.get("C14_MODEL_VARIANT", "fixed")
     ctx.extra["model_variant"] = variant
     # corpus first: each witness with its own command
+    c14x.run_jobs(ctx, [c14x.job_of_input(inp) for inp in corpus_inputs() if "mspec" in inp], variant)
     for inp in corpus_inputs():
+        if "mspec" in inp:
+            continue
         spec = inp["spec"]
         c = {k: inp[k] for k in ("target", "recursive", "check", "force")}
         run_specs(ctx, [spec], nproc=1, cases_of=lambda s, c=c: [c], variant=variant)
     run_specs(ctx, directed_specs(), variant=variant)
     run_specs(ctx, directed_property_specs(), variant=variant)
-    n = ctx.size(80, 1000)
+    n = ctx.size(30, 1000)
     specs = [stackgen.gen_spec(ctx.rng) for _ in range(n)]
     for s in specs[:2]:
         ctx.sample({"products": s["products"], "shape": s["shape"], "commands": "every product x recursive x check x force"})
     for i in range(0, len(specs), 200):
         run_specs(ctx, specs[i:i + 200], variant=variant)
+    # the whole command on two stacks and two flavors
+    c14x.run(ctx, variant)
     # shrink the first unknown failure of each kind so that the replay is readable
     seen = set()
     for f in list(ctx.failures):
-        if ctx._known(f) or f["kind"] in seen or len(seen) >= 3 or f["input"].get("shrunk"):
+        if ctx._known(f) or f["kind"] in seen or len(seen) >= 3 or f["input"].get("shrunk") or "mspec" in f["input"]:
             continue
         seen.add(f["kind"])
         c = {k: f["input"][k] for k in ("target", "recursive", "check", "force")}
@@ -637,6 +658,19 @@ def replay(ctx, path):
             print("  proof problem: %s %s" % (p.get("theorem"), p.get("what")))
         print("replay %s: %s" % (path, "passes" if ok else "still fails"))
         return 0 if ok else 1
+    if "mspec" in inp:
+        impl = c14x.replay_input(ctx, inp, os.environ.get("C14_MODEL_VARIANT", "fixed"))
+        for r in impl["results"] + [s for h in impl["histories"] for s in h if "outcome" in s]:
+            print("  outcome %s %s" % (r["outcome"], r.get("msg", "")))
+            print("  declared after:  %s" % [d[:4] for d in r["after"]["decls"]])
+        print("  declared before: %s" % [d[:4] for d in impl["before"]["decls"]])
+        bad = [f for f in ctx.failures if not ctx._known(f)] or ctx.disagreements
+        for f in ctx.failures[:5]:
+            print("  %s: %s" % (f["kind"], f["what"]))
+        for d in ctx.disagreements[:5]:
+            print("  disagreement (%s): model %s impl %s" % (d["where"], json.dumps(d["model"])[:300], json.dumps(d["impl"])[:300]))
+        print("replay %s: %s" % (path, "still fails" if bad else "passes"))
+        return 1 if bad else 0
     c = {k: inp[k] for k in ("target", "recursive", "check", "force")}
     impls, _ = run_specs(ctx, [inp["spec"]], nproc=1, cases_of=lambda s: [c])
     r = impls[0]["results"][0]
